@@ -10,7 +10,11 @@ CHECK = {'title': 'Only root-controlled executables are ever run',
               'side-effect marker as execution witness',
  'rule': 'run 1 (util): owner {0,1234} x group {0,1234} x all 512 permission modes x {direct path, symlink} = 4096 script files, each through the real '
          'SafeCmdExecution (script creates a marker file); all 1024 ordered pairs of 32 core states (8 modes x owner x group) x {direct, symlink} as '
-         '"execute, chown/chmod, execute again"; the same 1024 pairs with a symlink re-pointed between the executions. '
+         '"execute, chown/chmod, execute again"; the same 1024 pairs with a symlink re-pointed between the executions; per core state a path through '
+         '<symlinked directory>/.. and a relative path with a directory part (decoy with the opposite verdict where a command started from the '
+         'executable\'s own directory would look). Further runs: the daemon root command and the `fan2go fan` sub-commands on configuration files of every '
+         'core state (one process per case), and 12 concurrent callers of SafeCmdExecution / CheckFilePermissionsForExecution (6 owner/mode states, '
+         'race-instrumented build: per-call verdicts + happens-before reports inside internal/util). '
          'run 2 (configuration): a real YAML configuration loaded through viper in 4 variants (no cmd entry, cmd sensor, cmd fan, both) x the same 4096 '
          'file states through the real Validate(path), and the 2048 change-between-validations pairs per variant. '
          'Oracle (one-directional): file not (uid 0 and not(gid!=0 and g+w) and not o+w) => error returned and marker absent / Validate error when a cmd '
@@ -24,4 +28,6 @@ CHECK = {'title': 'Only root-controlled executables are ever run',
  'runs': [{'pkg': 'internal/util', 'test': 'TestVX_C18', 'shards_quick': 8, 'shards_thorough': 8},
           {'pkg': 'internal/configuration', 'test': 'TestVX_C18config', 'shards_quick': 4, 'shards_thorough': 4},
           {'pkg': 'cmd', 'test': 'TestVX_C18root', 'shards_quick': 8, 'shards_thorough': 8, 'gomaxprocs': '2'},
-          {'pkg': 'cmd/fan', 'test': 'TestVX_C18cli', 'shards_quick': 6, 'shards_thorough': 6, 'gomaxprocs': '2'}]}
+          {'pkg': 'cmd/fan', 'test': 'TestVX_C18cli', 'shards_quick': 6, 'shards_thorough': 6, 'gomaxprocs': '2'},
+          {'pkg': 'internal/util', 'test': 'TestVX_C18race', 'race': True, 'shards_quick': 1, 'shards_thorough': 1, 'gomaxprocs': '8',
+           'env': {'GORACE': 'log_path=race halt_on_error=0 exitcode=0 history_size=3'}}]}
